@@ -60,8 +60,9 @@ func init() {
 
 func init() {
 	register(&CheckSpec{
-		ID:    "CONF",
-		Props: []string{"CONF"},
+		ID:          "CONF",
+		Props:       []string{"CONF"},
+		ValidateAll: true,
 		Obligs: func(tier string) []Oblig {
 			var obs []Oblig
 			for k := 0; k < nFmtKinds; k++ {
@@ -316,5 +317,216 @@ func init() {
 		Assume:  []string{"signature class of a secret: length, positions of line feeds; ints exclude 0..10 (zero-ness under %.0d and LF under %c are separate classes, not explored)", "redaction is computed with the byte-level reference redactRef (C07 relates it to Redact())"},
 		Stubs:   []string{"reflect emulated", "sync.Pool LIFO"},
 		Outside: []string{"float digits concrete", "decimal ints above 9999", "formats outside the directive table", "paths that end in a panic"},
+	})
+}
+
+var redactKinds = []int{100, 101, 102, 103, 104, 105, 106, 107, 108, 109, 110, 111}
+
+func valsObligs(tier string) []Oblig {
+	var obs []Oblig
+	dn := 2
+	if tier == "thorough" {
+		dn = 3
+	}
+	kinds := append(append([]int{}, deepStrKinds...), 36, 37, 38, 39, 19, 21, 26, 44)
+	kinds = append(kinds, redactKinds...)
+	deep := map[int]bool{0: true, 27: true, 36: true, 102: true, 103: true, 104: true, 106: true, 110: true}
+	for _, k := range kinds {
+		for _, d := range deepDirs {
+			if tier == "thorough" || deep[k] {
+				obs = append(obs, Oblig{Harness: "H_vals", Args: []int{k, d, dn}})
+			} else {
+				obs = append(obs, Oblig{Harness: "H_vals", Args: []int{k, d, 1}})
+			}
+		}
+	}
+	if tier == "thorough" {
+		all := append([]int{}, redactKinds...)
+		for k := 0; k < nFmtKinds; k++ {
+			all = append(all, k)
+		}
+		for _, k := range all {
+			for d := 0; d < nDirectives; d++ {
+				obs = append(obs, Oblig{Harness: "H_vals", Args: []int{k, d, 2}})
+			}
+		}
+	}
+	return obs
+}
+
+func fmtbytesObligs(tier string) []Oblig {
+	obs := []Oblig{
+		{Harness: "H_fmtbytes", Args: []int{1, 0}}, {Harness: "H_fmtbytes", Args: []int{2, 0}}, {Harness: "H_fmtbytes", Args: []int{3, 0}},
+		{Harness: "H_fmtbytes", Args: []int{2, 1}}, {Harness: "H_fmtbytes", Args: []int{3, 1}},
+		{Harness: "H_fmtbytes", Args: []int{2, 2}},
+	}
+	if tier == "thorough" {
+		obs = append(obs, Oblig{Harness: "H_fmtbytes", Args: []int{4, 0}}, Oblig{Harness: "H_fmtbytes", Args: []int{4, 1}}, Oblig{Harness: "H_fmtbytes", Args: []int{3, 2}})
+	}
+	return obs
+}
+
+func wfObligs(tier string, panicViol bool) []Oblig {
+	obs := fmtbytesObligs(tier)
+	obs = append(obs, escapeObligs(tier, false)...)
+	for _, o := range histObligs(tier, panicViol) {
+		if tier == "thorough" || len(o.Args) <= 2 {
+			obs = append(obs, o)
+		} else if len(o.Args) == 3 && o.Args[0] == 1 && lightOp(o.Args[1]) && lightOp(o.Args[2]) {
+			obs = append(obs, o)
+		}
+	}
+	obs = append(obs, valsObligs(tier)...)
+	return obs
+}
+
+func lightOp(op int) bool {
+	switch op {
+	case 0, 1, 3, 16, 18:
+		return true
+	}
+	return false
+}
+
+func wfBounds(tier string) map[string]interface{} {
+	b := histBounds(tier)
+	b["format_string"] = "3 (4 thorough) symbolic bytes over a 27-symbol alphabet (all directive syntax, marker bytes, LF)"
+	b["escape_payload_bytes"] = map[string]int{"quick": 4, "thorough": 6}[tier]
+	b["value_kinds_x_directives"] = "27 kinds x 12 directives, 2 (3 thorough) arbitrary leaf bytes; thorough: all 65 kinds x 50 directives with 2 bytes"
+	return b
+}
+
+func init() {
+	register(&CheckSpec{
+		ID:      "C01",
+		Props:   []string{"C01"},
+		Obligs:  func(tier string) []Oblig { return wfObligs(tier, false) },
+		Bounds:  wfBounds,
+		Goals:   []string{"envelope-produced", "marker-in-payload", "symbolic-leaf"},
+		Assume:  []string{"raw-mode writes are well-formed fragments (documented use)"},
+		Stubs:   []string{"reflect emulated", "sync.Pool LIFO"},
+		Outside: []string{"longer payloads, formats and histories", "float digits concrete", "paths that end in a panic (C11)"},
+	})
+	register(&CheckSpec{
+		ID:      "C03",
+		Props:   []string{"C03"},
+		Obligs:  func(tier string) []Oblig { return wfObligs(tier, false) },
+		Bounds:  wfBounds,
+		Goals:   []string{"lf-first", "lf-last", "symbolic-leaf"},
+		Assume:  []string{"raw-mode writes are well-formed, line-safe fragments (documented use)"},
+		Stubs:   []string{"reflect emulated", "sync.Pool LIFO"},
+		Outside: []string{"longer payloads, formats and histories", "paths that end in a panic (C11)"},
+	})
+}
+
+func c13Obligs(tier string) []Oblig {
+	var obs []Oblig
+	ops := []int{0, 1, 3, 5, 16}
+	if tier == "thorough" {
+		ops = []int{0, 1, 2, 3, 4, 5, 8, 15, 16, 18}
+	}
+	for _, variant := range []int{0, 2} {
+		for acc := 0; acc < 6; acc++ {
+			for _, a := range ops {
+				for _, b := range ops {
+					obs = append(obs, Oblig{Harness: "H_c13", Args: []int{variant, acc, 1, 1, a, b}})
+					if tier == "thorough" {
+						obs = append(obs, Oblig{Harness: "H_c13", Args: []int{variant, acc, 2, 1, a, b}})
+					}
+				}
+			}
+			// accessor between two 2-byte string writes, and in a 3-op script
+			for _, a := range []int{0, 1} {
+				for _, b := range []int{0, 1} {
+					obs = append(obs, Oblig{Harness: "H_c13", Args: []int{variant, acc, 1, 2, a, b}})
+					obs = append(obs, Oblig{Harness: "H_c13", Args: []int{variant, acc, 2, 1, a, b, 1}})
+				}
+			}
+		}
+	}
+	for _, variant := range []int{1, 3} {
+		for which := 0; which < 3; which++ {
+			for _, a := range ops {
+				for _, b := range ops {
+					obs = append(obs, Oblig{Harness: "H_c13", Args: []int{variant, which, 1, 1, a, b}})
+				}
+				obs = append(obs, Oblig{Harness: "H_c13", Args: []int{variant, which, 2, 1, 16, a, 1}})
+				obs = append(obs, Oblig{Harness: "H_c13", Args: []int{variant, which, 1, 2, a, 1}})
+			}
+		}
+	}
+	return obs
+}
+
+func init() {
+	register(&CheckSpec{
+		ID:     "C13",
+		Props:  []string{"C13"},
+		Obligs: c13Obligs,
+		Bounds: func(tier string) map[string]interface{} {
+			return map[string]interface{}{"scripts": "2-3 SafeWriter calls around the accessor / Reset / Take, ops from 5 (10 thorough) kinds", "payload": "1-2 fully symbolic bytes, full 32-bit runes", "objects": "StringBuilder and ManualBuffer", "accessors": "Len Cap String RedactableString RedactableBytes GetMode; Reset TakeRedactableString TakeRedactableBytes"}
+		},
+		Goals:   []string{"ran"},
+		Assume:  []string{"internal fields are not compared, only results of the public API"},
+		Stubs:   []string{"sync.Pool LIFO (Print/Printf ops)", "slice capacity growth of append follows the interpreter's []value growth, not the runtime's []byte growth (capacities set by explicit make are exact)"},
+		Outside: []string{"longer histories", "RedactableBytes aliasing (by design)"},
+	})
+}
+
+
+func init() {
+	register(&CheckSpec{
+		ID:          "RECONF",
+		Props:       []string{"RECONF"},
+		ValidateAll: true,
+		Obligs: func(tier string) []Oblig {
+			var obs []Oblig
+			var rec func(cur []int, n int)
+			rec = func(cur []int, n int) {
+				obs = append(obs, Oblig{Harness: "H_reconf", Args: append([]int{}, cur...)})
+				if n == 0 {
+					return
+				}
+				for k := 0; k < 8; k++ {
+					rec(append(cur, k), n-1)
+				}
+			}
+			rec(nil, 4)
+			return obs
+		},
+	})
+	register(&CheckSpec{
+		ID:    "C07",
+		Props: []string{"C07"},
+		Obligs: func(tier string) []Oblig {
+			var obs []Oblig
+			maxK := 4
+			if tier == "thorough" {
+				maxK = 6
+			}
+			var rec func(cur []int, n int)
+			rec = func(cur []int, n int) {
+				obs = append(obs, Oblig{Harness: "H_c07", Args: append([]int{}, cur...)})
+				if n == 0 {
+					return
+				}
+				for k := 0; k < 5; k++ {
+					rec(append(cur, k), n-1)
+				}
+			}
+			rec(nil, maxK)
+			return obs
+		},
+		Bounds: func(tier string) map[string]interface{} {
+			k := 4
+			if tier == "thorough" {
+				k = 6
+			}
+			return map[string]interface{}{"segments": k, "segment_alphabet": "start marker, end marker, cross, LF, one fully symbolic byte", "shapes": "all 5^k sequences for every k up to the bound"}
+		},
+		Goals:   []string{"well-formed-input", "ill-formed-input"},
+		Assume:  []string{"Go's regexp engine is modelled: leftmost-first backtracking over the syntax.Prog compiled from the pattern strings found in /repo, inside a transcription of regexp.replaceAll; the model is diffed against the host engine on all strings of <=4 symbols over an 8-symbol alphabet at setup"},
+		Stubs:   []string{"regexp: modelled (see assumptions)"},
+		Outside: []string{"the regexp engine's own implementation", "longer strings"},
 	})
 }
